@@ -36,6 +36,8 @@ package endorse
 //@   loop 1 invariant vcGetOps - old(vcGetOps) <= tries && vcResults == old(vcResults) && copsCommitsOK == old(copsCommitsOK)
 //@   loop 1 invariant copsDestroyed - old(copsDestroyed) == vcOpened - old(vcOpened)
 //@   loop 1 invariant[C14] tries == 0 || lastRetriable
+// the backend is asked about the error of the attempt that has just failed, not an earlier one
+//@   atcall RetriableError requires[C14] same(p1, err)
 //@   loop 1 invariant ec.DryRun ==> vcGetOps == old(vcGetOps) && copsCalls == old(copsCalls)
 
 //@ func makeEvents
